@@ -207,6 +207,7 @@ func c10Oracle(c *runCtx, id int, ops []dag.Operation, s *bug.Snapshot) {
 		opId    string
 		message string
 		files   []string
+		history []string // the original text, then the text of every edit
 	}
 	var comments []*cm
 	actors, participants := []string{}, []string{}
@@ -224,17 +225,18 @@ func c10Oracle(c *runCtx, id int, ops []dag.Operation, s *bug.Snapshot) {
 		switch o := op.(type) {
 		case *bug.CreateOperation:
 			title = o.Title
-			comments = append(comments, &cm{string(o.Id()), o.Message, hashesStr(o.Files)})
+			comments = append(comments, &cm{string(o.Id()), o.Message, hashesStr(o.Files), []string{o.Message}})
 			actors, participants = addOnce(actors, a), addOnce(participants, a)
 			nTimeline++
 		case *bug.AddCommentOperation:
-			comments = append(comments, &cm{string(o.Id()), o.Message, hashesStr(o.Files)})
+			comments = append(comments, &cm{string(o.Id()), o.Message, hashesStr(o.Files), []string{o.Message}})
 			actors, participants = addOnce(actors, a), addOnce(participants, a)
 			nTimeline++
 		case *bug.EditCommentOperation:
 			for _, cc := range comments {
 				if cc.opId == string(o.Target) { // the documented meaning: the comment created by operation Target
 					cc.message, cc.files = o.Message, hashesStr(o.Files)
+					cc.history = append(cc.history, o.Message)
 					actors = addOnce(actors, a)
 					break
 				}
@@ -296,6 +298,35 @@ func c10Oracle(c *runCtx, id int, ops []dag.Operation, s *bug.Snapshot) {
 	}
 	if mustJSON(idsStr(s.Participants)) != mustJSON(participants) {
 		fail("C10/participants", "participants are not each commenting author once", nil)
+	}
+	// the timeline entry of a comment shows the same text and files, with its full edit history
+	ci := 0
+	for _, it := range s.Timeline {
+		var cti *bug.CommentTimelineItem
+		switch x := it.(type) {
+		case *bug.CreateTimelineItem:
+			cti = &x.CommentTimelineItem
+		case *bug.AddCommentTimelineItem:
+			cti = &x.CommentTimelineItem
+		}
+		if cti == nil {
+			continue
+		}
+		if ci < len(comments) {
+			cc := comments[ci]
+			var hist []string
+			for _, h := range cti.History {
+				hist = append(hist, h.Message)
+			}
+			if cti.Message != cc.message || mustJSON(hashesStr(cti.Files)) != mustJSON(cc.files) || mustJSON(hist) != mustJSON(cc.history) {
+				fail("C10/timeline-comment", fmt.Sprintf("timeline entry of comment %d: text/files/history are not those of its edits: files %v want %v, history of %d steps want %d", ci, hashesStr(cti.Files), cc.files, len(hist), len(cc.history)),
+					map[string]any{"got": cti.Message, "want": cc.message})
+			}
+		}
+		ci++
+	}
+	if ci != len(comments) {
+		fail("C10/timeline", fmt.Sprintf("timeline has %d comment entries for %d comments", ci, len(comments)), nil)
 	}
 	if len(s.Timeline) != nTimeline {
 		fail("C10/timeline", fmt.Sprintf("timeline has %d entries for %d state-changing operations", len(s.Timeline), nTimeline), nil)
